@@ -45,6 +45,10 @@ deriving Repr, DecidableEq
 inductive AppVerb | run | close | install
 deriving Repr, DecidableEq
 
+/-- `all(…)` / `any(…)` over the interfaces -/
+inductive Quant | all | any
+deriving Repr, DecidableEq
+
 inductive PStmt
   | skip                                  -- logging, docstring, `pass`, `super().apply_timestep`, the interfaces' `apply_timestep`
   | seq (a b : PStmt)
@@ -61,6 +65,15 @@ inductive PStmt
   | startUpActions | shutDownActions      -- `self._start_up_actions()` / `self._shut_down_actions()`
   | svcsEach (v : SvcVerb)                -- `for s in self.services: self.services[s].<v>()`
   | appsEach (v : AppVerb)
+  /- `all(i.enable() for i in self.network_interfaces.values())` (`sc` = a generator: evaluation stops at the first answer
+     that decides the result, the interfaces behind it are not called; a list comprehension calls every interface first) -/
+  | nicsQ (q : Quant) (sc : Bool) (v : NicVerb)                     -- as a statement, answer dropped
+  | ifNicsQ (q : Quant) (sc : Bool) (v : NicVerb) (t e : PStmt)      -- as an `if` test
+  | retNicsQ (q : Quant) (sc : Bool) (v : NicVerb)                   -- returned
+  /- a helper method of the node, inlined: its body runs in its own `return` scope -/
+  | block (b : PStmt)                     -- `self._helper()` as a statement
+  | ifBlock (b t e : PStmt)               -- `if self._helper(): … else: …` (`None` is falsy)
+  | retBlock (b : PStmt)                  -- `return self._helper()`
 deriving Repr, DecidableEq
 
 def IExpr.eval (n : Node) : IExpr → Int
@@ -106,6 +119,25 @@ def appApply (nodeOn : Bool) (a : App) : AppVerb → App
   | .close => a.close.1
   | .install => a.install
 
+/-- one interface's `enable()` / `disable()`: the interface afterwards and what the call answers (`disable()` always
+answers True; `enable()` of a NIC / router interface answers True whatever happened, of a switch port / access point
+whether the interface is up) -/
+def nicCall (on : Bool) (v : NicVerb) (c : Nic) : Nic × Bool :=
+  match v with
+  | .enable => (c.enable on, c.enableAnswer on)
+  | .disable => (c.disable, true)
+
+/-- `all(…)` / `any(…)` over the interfaces in port order: the interfaces afterwards and the answer. With `sc` the
+evaluation stops at the first answer that decides the result (False for `all`, True for `any`). -/
+def nicsQuant (q : Quant) (sc on : Bool) (v : NicVerb) : List Nic → List Nic × Bool
+  | [] => ([], q == .all)
+  | c :: cs =>
+    if sc && ((nicCall on v c).2 != (q == .all)) then ((nicCall on v c).1 :: cs, (nicCall on v c).2)
+    else ((nicCall on v c).1 :: (nicsQuant q sc on v cs).1,
+          match q with
+          | .all => (nicCall on v c).2 && (nicsQuant q sc on v cs).2
+          | .any => (nicCall on v c).2 || (nicsQuant q sc on v cs).2)
+
 /-- `none` = still running; `some r` = the method has returned `r` (`none` = Python's `None`) -/
 abbrev Ret := Option (Option Bool)
 
@@ -136,6 +168,15 @@ def exec (p : Procs) : PStmt → Node → Node × Ret
   | .shutDownActions, n => (p.shut n, none)
   | .svcsEach v, n => ({ n with svcs := n.svcs.map (fun s => (svcApply n.isOn s v).1) }, none)
   | .appsEach v, n => ({ n with apps := n.apps.map (fun a => appApply n.isOn a v) }, none)
+  | .nicsQ q sc v, n => ({ n with nics := (nicsQuant q sc n.isOn v n.nics).1 }, none)
+  | .ifNicsQ q sc v t e, n =>
+    if (nicsQuant q sc n.isOn v n.nics).2 then exec p t { n with nics := (nicsQuant q sc n.isOn v n.nics).1 }
+    else exec p e { n with nics := (nicsQuant q sc n.isOn v n.nics).1 }
+  | .retNicsQ q sc v, n => ({ n with nics := (nicsQuant q sc n.isOn v n.nics).1 }, some (some (nicsQuant q sc n.isOn v n.nics).2))
+  | .block b, n => ((exec p b n).1, none)
+  | .ifBlock b t e, n =>
+    if ((exec p b n).2.getD none).getD false then exec p t (exec p b n).1 else exec p e (exec p b n).1
+  | .retBlock b, n => ((exec p b n).1, some ((exec p b n).2.getD none))
 
 /-- a method body run to its end: the node afterwards and the answer (`none` = `None`: fell off the end or bare `return`) -/
 def runBody (p : Procs) (prog : PStmt) (n : Node) : Node × Option Bool :=
@@ -148,6 +189,10 @@ def PStmt.calls : PStmt → List Call
   | .ifCall k t e => k :: (t.calls ++ e.calls)
   | .retCall k => [k]
   | .call k => [k]
+  | .ifNicsQ _ _ _ t e => t.calls ++ e.calls
+  | .block b => b.calls
+  | .ifBlock b t e => b.calls ++ t.calls ++ e.calls
+  | .retBlock b => b.calls
   | _ => []
 
 /-- does the body use `_start_up_actions` / `_shut_down_actions`? -/
@@ -157,6 +202,10 @@ def PStmt.usesActions : PStmt → Bool
   | .ifCall _ t e => t.usesActions || e.usesActions
   | .startUpActions => true
   | .shutDownActions => true
+  | .ifNicsQ _ _ _ t e => t.usesActions || e.usesActions
+  | .block b => b.usesActions
+  | .ifBlock b t e => b.usesActions || t.usesActions || e.usesActions
+  | .retBlock b => b.usesActions
   | _ => false
 
 end Primaite.Power
